@@ -25,15 +25,17 @@ def totalCost (b : List Arg) : Nat := (b.map (fun a => cost a.bytes)).sum
     command whose command word and initial arguments left the chain in `init`:
     at most `-n` appended arguments; arguments from at most `-L` input lines
     (one more than the number of line-ending arguments before the last one);
-    at most `-s` bytes and at most the system budget, counting the command, the
-    initial arguments (already in `init`) and every appended argument plus one
-    terminator each. -/
+    at most `-s` bytes, counting the command, the initial arguments (already in
+    `init`) and every appended argument plus one terminator each; and within the
+    system limits: no single argument above `maxArg`, and the same byte count
+    plus `ptr` bytes per argument within the system budget. -/
 def FitsSpec (lim : Limits) (init : LState) (b : List Arg) : Prop :=
   b = [] ∨
   ((∀ n, lim.n = some n → init.args + b.length ≤ n) ∧
    (∀ l, lim.l = some l → init.line + hardCount b.dropLast ≤ l) ∧
    (∀ s, lim.s = some s → init.sizeS + totalCost b ≤ s) ∧
-   (init.sizeSys + totalCost b ≤ lim.sys))
+   (∀ a ∈ b, cost a.bytes ≤ lim.maxArg) ∧
+   (init.sizeSys + totalCost b + lim.ptr * b.length ≤ lim.sys))
 
 def Outcome.isFatal : Outcome → Bool
   | .exit 255 => true
